@@ -48,7 +48,7 @@ SPEC = {
         # every plain child runs under a 16 GiB address-space cap: a runaway allocation ends that child
         # ("fatal error: out of memory", classified by the driver) instead of the machine
         Job("frames", "protocol", "^TestVerifC12Frames$", shards=(6, 12), timeout=(900, 5400), extra_tags="c12", ulimit_v=_CAP),
-        Job("frames-race", "protocol", "^TestVerifC12Frames$", race=True, shards=(4, 8), timeout=(900, 5400), extra_tags="c12",
+        Job("frames-race", "protocol", "^TestVerifC12Frames$", race=True, race_is_violation=False, shards=(4, 8), timeout=(900, 5400), extra_tags="c12",
             env={"VERIF_C12_SCALE": "0.12", "GOMEMLIMIT": "6GiB"}),
         Job("objects", "protocol", "^TestVerifC12Objects$", shards=(6, 12), timeout=(900, 5400), extra_tags="c12", ulimit_v=_CAP),
         Job("concurrent", "protocol", "^TestVerifC12Concurrent$", shards=(1, 2), timeout=(900, 5400), extra_tags="c12", ulimit_v=_CAP),
@@ -57,6 +57,7 @@ SPEC = {
     "parallel": 16,
     "floors": _floors,
     "assumptions": [
+        "data races reported by the -race job are recorded in the evidence (coverage.info.race_reports_diagnostic_only) but are not C12 verdicts: the property speaks about panics, hangs and allocation; races are decided under C14/C20",
         "frames whose S2 header claims more than 48 MiB are executed only by the dedicated 'forged' job (skipped and counted elsewhere)",
         "block-range answers carrying more blocks than the open request can take are executed only by the 'forged' job",
         "consensus config V12; epoch results come from the synthetic epoch function",
